@@ -27,6 +27,7 @@ func propC16(j *Job) {
 	c16Algebra32(j)
 	c16Sorts(j)
 	c16PayloadQueueGet(j)
+	c11Reassembly(j) // the reassembly model search runs at sequence-number bases around the wraps
 	c16EndToEnd(j)
 }
 
